@@ -152,6 +152,22 @@ def run_case(spec, ctx):
     ctx.check(worst <= ge, 'sample.joint-cdf-band', 'C09:joint-cdf-off',
               lambda: dict(where, worst=worst, at=wat, band=ge))
     ctx.maxstat('joint CDF distance / band', worst / ge, where)
+    # ... and matches the model's own cumulative_distribution, asked in one batch on the closed grid (boundary rows
+    # and interior rows together, as a user plotting the two surfaces would)
+    g2 = np.concatenate([[0.0], g, [1.0]])
+    A, B = [x.ravel() for x in np.meshgrid(g2, g2, indexing='ij')]
+    okc, own = ctx.call(model.cumulative_distribution, np.column_stack([A, B]))
+    if not okc:
+        ctx.violation('sample.joint-cdf-own', 'C09:cumulative_distribution-' + exc_mech(own), dict(exc_detail(own), **where))
+    else:
+        own = np.asarray(own, dtype=float)
+        emp2 = np.array([np.mean((out[:, 0] <= a) & (out[:, 1] <= b)) for a, b in zip(A, B)])
+        ge2 = stats.grid_eps(n, len(A))
+        dd = np.abs(emp2 - own)
+        dd = np.where(np.isnan(dd), np.inf, dd)
+        k = int(np.argmax(dd))
+        ctx.check(dd[k] <= ge2, 'sample.joint-cdf-own', 'C09:empirical-joint-cdf-differs-from-cumulative_distribution',
+                  lambda: dict(where, worst=float(dd[k]), at=[A[k], B[k]], empirical=emp2[k], cumulative_distribution=own[k], band=ge2))
     # the model's own tau must be the reference tau of its theta (so "the model's tau" is well defined)
     if spec['mode'] == 'param':
         ctx.check(abs(model.tau - tau_model) < 1e-9, 'sample.model-tau', 'C09:model-tau-changed', where)
